@@ -1,0 +1,39 @@
+//go:build verif
+
+package store
+
+import (
+	"github.com/feichai0017/NoKV/manifest"
+	"github.com/feichai0017/NoKV/pb"
+)
+
+// Verification-only accessors (build tag `verif`). They expose unexported decision
+// functions to the out-of-tree correspondence harness and add no behaviour.
+
+// VerifValidateRequest runs the epoch and key-range validation of validateCommand
+// against an explicit region descriptor. It returns nil when both pass.
+func VerifValidateRequest(meta manifest.RegionMeta, req *pb.RaftCmdRequest) *pb.RegionError {
+	if req == nil || req.Header == nil {
+		return epochNotMatchError(&meta)
+	}
+	if err := validateRegionEpoch(req.Header.GetRegionEpoch(), meta); err != nil {
+		return err
+	}
+	return validateRequestKeys(meta, req)
+}
+
+// VerifTrimScanResponse applies the read-path scan trimming.
+func VerifTrimScanResponse(meta manifest.RegionMeta, req *pb.RaftCmdRequest, resp *pb.RaftCmdResponse) {
+	trimScanResponse(meta, req, resp)
+}
+
+// VerifApplyAdmin applies an admin command to the store exactly as a committed raft
+// admin entry would.
+func (s *Store) VerifApplyAdmin(cmd *pb.AdminCommand) error {
+	return s.handleAdminCommand(cmd)
+}
+
+// VerifValidRegionStateTransition exposes the region state transition table.
+func VerifValidRegionStateTransition(current, next manifest.RegionState) bool {
+	return validRegionStateTransition(current, next)
+}
